@@ -253,11 +253,17 @@ def cosim_one(args):
         received = {i: [] for i in range(sc['nchan'])}
         out['received_live'] = received
         stop = {'flag': False}
+        auto = sc.get('auto_decode', True)
+        views = []          # (what message.body showed, raw body): the decoded view follows the auto_decode option
+
+        def cb_for(i):
+            def cb(m):
+                received[i].append((m.method['consumer_tag'], m.method['delivery_tag'], m._body, m.properties.get('message_id')))
+                views.append((m.body, m._body))
+            return cb
         for i, ch in enumerate(chans):
             ch.queue.declare('dq%d' % i)
-            ch.basic.consume((lambda i: lambda m: received[i].append((m.method['consumer_tag'], m.method['delivery_tag'], m._body,
-                                                                   m.properties.get('message_id'))))(i),
-                             'dq%d' % i, consumer_tag='ct%d' % i, no_ack=True)
+            ch.basic.consume(cb_for(i), 'dq%d' % i, consumer_tag='ct%d' % i, no_ack=True)
 
         def consumer(i):
             def fn():
@@ -265,9 +271,9 @@ def cosim_one(args):
                 try:
                     if sc['mode'] == 'callback':
                         while not stop['flag']:
-                            ch.process_data_events()
+                            ch.process_data_events(auto_decode=auto)
                             amqpstorm.channel.time.sleep(0.005)
-                        ch.process_data_events()
+                        ch.process_data_events(auto_decode=auto)
                     else:
                         for m in ch.build_inbound_messages(break_on_empty=False, auto_decode=False):
                             received[i].append((m.method['consumer_tag'], m.method['delivery_tag'], m._body,
@@ -309,8 +315,23 @@ def cosim_one(args):
             amqpstorm.channel.time.sleep(0.01)
             for k in range(3):
                 broker.queues['lq'].append((spec.Basic.Properties(message_id='late%d' % k), b'L' * (k * 40), '', 'lq'))
-            chans[0].basic.consume(lambda m: received[0].append((m.method['consumer_tag'], m.method['delivery_tag'], m._body,
-                                                                 m.properties.get('message_id'))), 'lq', consumer_tag='late', no_ack=True)
+            cancelled = {'done': False}
+
+            def late_cb(m):
+                received[0].append((m.method['consumer_tag'], m.method['delivery_tag'], m._body, m.properties.get('message_id')))
+                if sc.get('late_cancel') == 'own' and not cancelled['done']:
+                    # the consumer cancels itself from its callback; the deliveries already queued behind this one
+                    # were delivered by the broker and must still be handed over
+                    cancelled['done'] = True
+                    chans[0].basic.cancel('late')
+            chans[0].basic.consume(late_cb, 'lq', consumer_tag='late', no_ack=True)
+            if sc.get('late_cancel') is True:
+                # more messages go out to the late consumer, then it is cancelled: what the broker delivered before the
+                # cancel took effect must still be handed to its callback
+                amqpstorm.channel.time.sleep(0.004)
+                for k in range(3):
+                    broker.enqueue('lq', b'M' * (k * 30), {'message_id': 'late-more%d' % k})
+                chans[0].basic.cancel('late')
         cons = [ctx.spawn(consumer(i), 'consumer%d' % i) for i in range(sc['nchan'])]
         ts = [ctx.spawn(feeder, 'feeder'), ctx.spawn(rpc_caller, 'rpc'), ctx.spawn(returner, 'returner')]
         if sc.get('late') and sc['mode'] == 'callback':
@@ -337,6 +358,16 @@ def cosim_one(args):
             if got != want:
                 first = next((k for k, (g, w) in enumerate(zip(got, want)) if g != w), min(len(got), len(want)))
                 out['problems'].append(('deliveries-differ', i, len(got), len(want), first))
+        for shown, raw in views:
+            want = raw
+            if auto and raw:
+                try:
+                    want = raw.decode('utf-8')
+                except UnicodeDecodeError:
+                    want = raw
+            if shown != want or type(shown) is not type(want):
+                out['problems'].append(('body-view', 0, repr(shown)[:30], repr(want)[:30], int(auto)))
+                break
         out['received'] = {i: len(v) for i, v in received.items()}
         out.pop('received_live', None)
 
@@ -370,12 +401,14 @@ def check(rep):
     for _ in range(60 if not thorough else 1500):
         jobs.append(({'nchan': rng.randint(1, 2), 'mode': rng.choice(['callback', 'generator']), 'messages': rng.randint(4, 14),
                       'sizes': [rng.choice([0, 1, 100, 4088, 4089, 9000]) for _ in range(3)], 'split': rng.choice([None, 50, 1000]),
-                      'rpcs': rng.randint(0, 4), 'returns': rng.randint(0, 3), 'late': rng.random() < 0.3}, rng.randrange(1 << 30)))
+                      'rpcs': rng.randint(0, 4), 'returns': rng.randint(0, 3), 'late': rng.random() < 0.3,
+                      'auto_decode': rng.random() < 0.5, 'late_cancel': rng.choice([False, True, 'own'])}, rng.randrange(1 << 30)))
     # a consumer added while the channel is being consumed (queue with a backlog), fair time, heavy pre-emption is in C14;
     # here: a few such runs judged by C03's own oracle (every delivery exactly once, in order)
     for _ in range(40 if not thorough else 600):
         jobs.append(({'nchan': 1, 'mode': 'callback', 'messages': rng.randint(2, 6), 'sizes': [rng.choice([0, 1, 100]) for _ in range(3)],
-                      'split': None, 'rpcs': 0, 'returns': 0, 'late': True}, rng.randrange(1 << 30) | 1))
+                      'split': None, 'rpcs': 0, 'returns': 0, 'late': True, 'late_cancel': rng.choice([False, True, 'own', 'own']),
+                      'auto_decode': rng.random() < 0.5}, rng.randrange(1 << 30) | 1))
     for (sc, seed), r in zip(jobs, par.pmap(cosim_one, jobs)):
         rep.case(('cosim', repr(sc), seed), (sc['returns'] > 0 or sc['rpcs'] > 0) and r['preemptions'] > 0,
                  sample={'cosim': sc, 'received': r.get('received')})
@@ -383,7 +416,10 @@ def check(rep):
         rep.count('cosim_abort', r['abort'])
         replay = {'kind': 'cosim', 'scenario': sc, 'seed': seed}
         for p in r['problems']:
-            rep.violation('C03/%s' % p[0], 'cosim: channel %d: application got %d messages, broker delivered %d, first difference at #%d' % p[1:], replay)
+            if p[0] == 'body-view':
+                rep.violation('C03/body-view', 'cosim: message.body showed %s, expected %s (auto_decode=%d)' % p[2:], replay)
+            else:
+                rep.violation('C03/%s' % p[0], 'cosim: channel %d: application got %d messages, broker delivered %d, first difference at #%d' % p[1:], replay)
             break
         if r['abort'] != 'all application threads finished':
             rep.violation('C03/run-did-not-finish:%s' % r['abort'], 'scenario ended with %s' % r['abort'], replay)
